@@ -29,6 +29,9 @@ LAYOUT_KEYS = {'reindent', 'indent_width', 'indent_tabs', 'wrap_after',
                'compact', 'reindent_aligned', 'strip_whitespace',
                'use_space_around_operators'}
 
+CHEAP = ('paren', 'bracket', 'func', 'arith', 'unclosed_paren',
+         'unclosed_bracket', 'unclosed_case')
+
 FOLLOWUPS = [
     ('parse', "select a from b where c = 1", None),
     ('format', "select a, b from t where x = 1 and y in (select 1 from z)",
@@ -70,40 +73,37 @@ def _call_fn(api, text, opts, form, consume):
 
 
 def probe_threshold(arg):
-    """Smallest head-room H (warm lexer, P = 0) at which the call no longer
-    ends in a RecursionError/SQLParseError caused by one; 0 if even ample
-    head-room fails (then the sweep uses a default range)."""
+    """Frames the call needs below its entry (warm lexer): the maximum
+    Python frame depth reached during one execution at ample head-room,
+    measured with sys.setprofile.  On the pinned tree this equals the
+    smallest head-room at which the call no longer overflows (checked
+    against a binary search over real head-room values for a sample of
+    cases).  0 if the call fails even at ample head-room."""
     import sqlparse
-    from sqlparse.exceptions import SQLParseError
     sys.setrecursionlimit(ops.AMPLE)
     api, inp, opts, form, consume = arg
     text = ops.materialise(inp)
     sqlparse.parse('select 1')
     fn = _call_fn(api, text, opts, form, consume)
+    mx = [0]
+    cur = [0]
 
-    def fails(H):
-        try:
-            ops.call_with_headroom(fn, H, 0)
-        except RecursionError:
-            return True
-        except SQLParseError as e:
-            return isinstance(e.__cause__, RecursionError)
-        except Exception:                        # noqa
-            return False
-        return False
-    hi = 64
-    while fails(hi):
-        hi *= 2
-        if hi > 20000:
-            return 0
-    lo = 1
-    while lo < hi:
-        mid = (lo + hi) // 2
-        if fails(mid):
-            lo = mid + 1
-        else:
-            hi = mid
-    return lo
+    def prof(frame, event, a):
+        if event == 'call':
+            cur[0] += 1
+            if cur[0] > mx[0]:
+                mx[0] = cur[0]
+        elif event == 'return':
+            cur[0] -= 1
+    failed = False
+    sys.setprofile(prof)
+    try:
+        fn()
+    except Exception:                            # noqa
+        failed = True
+    finally:
+        sys.setprofile(None)
+    return 0 if failed else mx[0]
 
 
 # ---------------------------------------------------------------------------
@@ -115,6 +115,8 @@ def draw_case(rng, tier):
     d = rng.choice(depths)
     if d > 60 and rng.random() < 0.5:
         d = rng.choice(DEPTHS_Q)
+    if d > 120 and c not in CHEAP:
+        d = 120     # grouping is ~cubic in depth for the heavier constructs
     api = rng.choice(APIS)
     opts = None
     if api == 'format':
@@ -159,11 +161,15 @@ def gen(seed, idx, tier, ctx):
         case['form'], case['consume'])
     hstar = ctx.memo.get(('c15', pkey))
     if hstar is None:
-        hstar = ctx.memo[('c15', pkey)] = ctx.in_fork(
-            'C15', 'probe_threshold',
-            [case['api'], inp, case['opts'], case['form'], case['consume']],
-            timeout=300.0)
-    top = (hstar or 120) + MARGIN
+        try:
+            hstar = ctx.in_fork(
+                'C15', 'probe_threshold',
+                [case['api'], inp, case['opts'], case['form'],
+                 case['consume']], timeout=240.0)
+        except Exception:                        # noqa
+            hstar = -1      # probe failed: sweep a default range
+        ctx.memo[('c15', pkey)] = hstar
+    top = (hstar if hstar and hstar > 0 else 120) + MARGIN
     rng = random.Random('%s/%s/%d' % (seed, CHECK, idx))
     P = rng.choice([0, 0, 0, 5, 40, 300])
     if top <= SWEEP:
@@ -381,6 +387,8 @@ def run(spec, refs):
         sqlparse.parse('select 1')
         sqlparse.format('select a from b', reindent=True)
     stat('state_' + spec['state'])
+    if spec.get('hstar') == -1:
+        stat('threshold_probe_failed')
     deep = spec.get('deep')
     for ci, call in enumerate(spec['calls']):
         optsig = ','.join(sorted((call.get('opts') or {}).keys())) or '-'
